@@ -44,6 +44,14 @@ func (cp *CachedPlanner) hash(ctx *PlanningContext) hashKey {
 	s = string(ctx.Operation.Operation) + " " + ctx.Operation.Name + " " + s
 	// the formatter prints a named fragment's name and body, but not the type it applies to
 	s += fragmentTypeConditions(ctx.Operation.SelectionSet)
+	// ... and not the variable definitions: the plan keeps the operation's AST (defaults are read from it)
+	// and declares some variables the way the client did
+	for _, vd := range ctx.Operation.VariableDefinitions {
+		s += " $" + vd.Variable + ": " + vd.Type.String()
+		if vd.DefaultValue != nil {
+			s += " = " + vd.DefaultValue.String()
+		}
+	}
 	sha1 := sha1.Sum([]byte(s))
 	return sha1
 }
